@@ -782,7 +782,7 @@ def _names(p):
 
 def flw10(ctx):
     """a match declared after the scan loop of input_match_at (the word ran out) must have tested how far the input was matched"""
-    r = RuleResult("FLW-10", "input_match_at: a match reported after the word ran out is conditioned on `state_index` (only the trailing boundary may be unmatched); same for the insertion-point finders", floor=3)
+    r = RuleResult("FLW-10", "input_match_at: a match reported after the word ran out is conditioned on `state_index` (only the trailing boundary may be unmatched); same for the insertion-point finders, whose end-of-word fallback is for boundaries only", floor=5)
     lib = ctx.lib
     b = ctx.fn(lib, "asca::subrule::SubRule::input_match_at")
     root = b.hir["body"]
@@ -859,6 +859,28 @@ def flw10(ctx):
             if not tested:
                 r.report("FLW-10|%s|fallback#%d" % (fname, m - 1), fn_loc(fb, node["ln"]), fb.path,
                          "when nothing matched, the end of the word is returned as insertion point because the context ends (begins) with a boundary, whatever else the context requires: an insertion rule whose context needs an absent segment still fires")
+            # ... and only for an element that the end of a word *is*: a boundary. A structure / syllable / segment needs segments.
+            kinds = set()
+            x, child = fpar.get(id(node)), node
+            while x is not None:
+                if x.get("e") == "if":
+                    for lt in [y for y in hirq.walk(x["cond"]) if y["e"] in ("let", "letcond")]:
+                        if any(y is child for y in hirq.walk(x["then"])):
+                            kinds |= {(q.get("path") or "") for q in hirq.walk_pats(lt["pat"]) if (q.get("path") or "").startswith("asca::parser::ParseElement::")}
+                if x.get("e") == "match" and (x.get("sty") or "").lstrip("&").endswith("asca::parser::ParseElement"):
+                    for arm in x["arms"]:
+                        if any(y is child for y in hirq.walk(arm["body"])):
+                            kinds |= {(q.get("path") or "") for q in hirq.walk_pats(arm["pat"]) if (q.get("path") or "").startswith("asca::parser::ParseElement::")}
+                child = x
+                x = fpar.get(id(x))
+            extra = sorted(k.rsplit("::", 1)[-1] for k in kinds if k.rsplit("::", 1)[-1] not in ("WordBound", "SyllBound"))
+            ok_k = bool(kinds) and not extra
+            r.inst("%s: the end-of-word insertion point is returned only for a context element that is a boundary (%s)" % (fname, ", ".join(sorted(k.rsplit("::", 1)[-1] for k in kinds)) or "no kind test"),
+                   fn_loc(fb, node["ln"]), "ok" if ok_k else "report")
+            if not ok_k:
+                r.report("FLW-10|%s|fallback#%d|kind:%s" % (fname, m - 1, "+".join(extra) or "untested"), fn_loc(fb, node["ln"]), fb.path,
+                         "when nothing matched, the end of the word is returned as the insertion point for a context element of kind %s: the end of a word is a boundary, it is not a %s -- `* > e / _<q>` appends `e` to a word that has no syllable `<q>`"
+                         % ("/".join(extra) or "(any)", "/".join(extra).lower() or "segment"))
         if m == 0:
             raise AnchorMissing("%s: end-of-word fallback not found" % fname)
     return r
